@@ -421,6 +421,12 @@ fn download_to_file(path: &Path, url: &str, timeout: Duration) -> Result<File> {
         ));
     }
 
+    // A connection closed inside the response headers is a 200 without a
+    // body to libcurl. Don't replace the cache with nothing.
+    if temp_file.as_file().metadata()?.len() == 0 {
+        return Err(eyre!("Received an empty response while downloading {}", url));
+    }
+
     temp_file.as_file_mut().sync_all()?;
     temp_file.as_file_mut().seek(SeekFrom::Start(0))?;
 
